@@ -24,6 +24,8 @@ import (
 	"verif/harness/internal/canon"
 	"verif/harness/internal/core"
 	"verif/harness/internal/fixt"
+	subfixt "verif/harness/internal/fixt/sub/fixt"
+	sub2fixt "verif/harness/internal/fixt/sub2/fixt"
 	"verif/harness/internal/fixt2"
 )
 
@@ -352,6 +354,11 @@ func buildValue(vc vlCase) (reflect.Value, error) {
 		return outer(func(o *fixt.Outer) { o.U8 = uint8(L.Uint()) }), nil
 	case "outerI64":
 		return outer(func(o *fixt.Outer) { o.I64 = L.Int() }), nil
+	case "mapTwoPkgs": // different entries of one map refer to different packages that have the same name
+		return reflect.ValueOf(map[string]fixt2.Two{
+			"a": {C: &subfixt.C{Z: true}}, "b": {D: &sub2fixt.D{W: 1}}, "c": {C: &subfixt.C{Z: true}}, "d": {D: &sub2fixt.D{W: 2}},
+			"e": {D: &sub2fixt.D{W: 3}}, "f": {C: &subfixt.C{}},
+		}), nil
 	case "crossName": // every field whose type comes from the other package is zero (and may be omitted)
 		return reflect.ValueOf(fixt.Cross{Name: "n"}), nil
 	case "crossB":
@@ -517,7 +524,7 @@ func (valuelitFam) ExecAll(cases []core.CaseIn, seed int64, emit func(c core.Cas
 	}
 	defer os.RemoveAll(scratch)
 	files := map[string]string{"go.mod": "module verif/harness\n\ngo 1.24\n"}
-	for _, rel := range []string{"internal/fixt/fixt.go", "internal/fixt/sub/fixt/fixt.go", "internal/fixt2/fixt2.go", "internal/canon/canon.go"} {
+	for _, rel := range []string{"internal/fixt/fixt.go", "internal/fixt/sub/fixt/fixt.go", "internal/fixt/sub2/fixt/fixt.go", "internal/fixt2/fixt2.go", "internal/canon/canon.go"} {
 		data, err := os.ReadFile(filepath.Join(harnessDir(), rel))
 		if err != nil {
 			return err
